@@ -70,9 +70,9 @@ Proto/EncProofs.vos Proto/EncProofs.vok Proto/EncProofs.required_vos: Proto/EncP
 Proto/PrimSpec.vo Proto/PrimSpec.glob Proto/PrimSpec.v.beautified Proto/PrimSpec.required_vo: Proto/PrimSpec.v Base/GoInt.vo Proto/Ext.vo Generated/ProtoGen.vo
 Proto/PrimSpec.vio: Proto/PrimSpec.v Base/GoInt.vio Proto/Ext.vio Generated/ProtoGen.vio
 Proto/PrimSpec.vos Proto/PrimSpec.vok Proto/PrimSpec.required_vos: Proto/PrimSpec.v Base/GoInt.vos Proto/Ext.vos Generated/ProtoGen.vos
-Properties/C03.vo Properties/C03.glob Properties/C03.v.beautified Properties/C03.required_vo: Properties/C03.v Base/GoInt.vo Proto/Ext.vo Generated/ProtoGen.vo Proto/Model.vo
-Properties/C03.vio: Properties/C03.v Base/GoInt.vio Proto/Ext.vio Generated/ProtoGen.vio Proto/Model.vio
-Properties/C03.vos Properties/C03.vok Properties/C03.required_vos: Properties/C03.v Base/GoInt.vos Proto/Ext.vos Generated/ProtoGen.vos Proto/Model.vos
+Properties/C03.vo Properties/C03.glob Properties/C03.v.beautified Properties/C03.required_vo: Properties/C03.v Base/GoInt.vo Proto/Ext.vo Generated/ProtoGen.vo Proto/Model.vo Proto/PrimSpec.vo Proto/Spec.vo Proto/EncProofs.vo
+Properties/C03.vio: Properties/C03.v Base/GoInt.vio Proto/Ext.vio Generated/ProtoGen.vio Proto/Model.vio Proto/PrimSpec.vio Proto/Spec.vio Proto/EncProofs.vio
+Properties/C03.vos Properties/C03.vok Properties/C03.required_vos: Properties/C03.v Base/GoInt.vos Proto/Ext.vos Generated/ProtoGen.vos Proto/Model.vos Proto/PrimSpec.vos Proto/Spec.vos Proto/EncProofs.vos
 Json/Ext.vo Json/Ext.glob Json/Ext.v.beautified Json/Ext.required_vo: Json/Ext.v Base/GoInt.vo Base/Lanes.vo
 Json/Ext.vio: Json/Ext.v Base/GoInt.vio Base/Lanes.vio
 Json/Ext.vos Json/Ext.vok Json/Ext.required_vos: Json/Ext.v Base/GoInt.vos Base/Lanes.vos
@@ -91,3 +91,9 @@ Json/ValidProofs.vos Json/ValidProofs.vok Json/ValidProofs.required_vos: Json/Va
 Properties/C05.vo Properties/C05.glob Properties/C05.v.beautified Properties/C05.required_vo: Properties/C05.v Base/GoInt.vo Json/Ext.vo Generated/JsonParseGen.vo Json/Grammar.vo Json/Spec.vo
 Properties/C05.vio: Properties/C05.v Base/GoInt.vio Json/Ext.vio Generated/JsonParseGen.vio Json/Grammar.vio Json/Spec.vio
 Properties/C05.vos Properties/C05.vok Properties/C05.required_vos: Properties/C05.v Base/GoInt.vos Json/Ext.vos Generated/JsonParseGen.vos Json/Grammar.vos Json/Spec.vos
+Properties/C16.vo Properties/C16.glob Properties/C16.v.beautified Properties/C16.required_vo: Properties/C16.v Base/GoInt.vo Proto/Ext.vo Generated/ProtoGen.vo Proto/Model.vo Proto/PrimSpec.vo Proto/Spec.vo Proto/EncProofs.vo
+Properties/C16.vio: Properties/C16.v Base/GoInt.vio Proto/Ext.vio Generated/ProtoGen.vio Proto/Model.vio Proto/PrimSpec.vio Proto/Spec.vio Proto/EncProofs.vio
+Properties/C16.vos Properties/C16.vok Properties/C16.required_vos: Properties/C16.v Base/GoInt.vos Proto/Ext.vos Generated/ProtoGen.vos Proto/Model.vos Proto/PrimSpec.vos Proto/Spec.vos Proto/EncProofs.vos
+Properties/C07.vo Properties/C07.glob Properties/C07.v.beautified Properties/C07.required_vo: Properties/C07.v Base/GoInt.vo Proto/Ext.vo Generated/ProtoGen.vo Proto/Model.vo Proto/PrimSpec.vo Proto/Spec.vo Proto/DecProofs.vo
+Properties/C07.vio: Properties/C07.v Base/GoInt.vio Proto/Ext.vio Generated/ProtoGen.vio Proto/Model.vio Proto/PrimSpec.vio Proto/Spec.vio Proto/DecProofs.vio
+Properties/C07.vos Properties/C07.vok Properties/C07.required_vos: Properties/C07.v Base/GoInt.vos Proto/Ext.vos Generated/ProtoGen.vos Proto/Model.vos Proto/PrimSpec.vos Proto/Spec.vos Proto/DecProofs.vos
